@@ -119,6 +119,11 @@ func execC03(p *drv.Plan) *Out {
 			if s.Op == drv.OpSave || s.Op == drv.OpPrune || s.Op == drv.OpReopen {
 				return audit(w, s.ID)
 			}
+			// the working tree with uncommitted writes (also before the very
+			// first commit) is a state of its own
+			if (s.Op == drv.OpSet || s.Op == drv.OpRemove) && (s.ID%3 == 0 || w.M.Latest == 0) {
+				return audit(w, s.ID)
+			}
 			return nil
 		},
 		End: func(w *drv.World) *drv.Violation { return audit(w, -1) },
